@@ -5,6 +5,7 @@ import AikenVerif.Drivers.Flat
 import AikenVerif.Drivers.DeBruijn
 import AikenVerif.Drivers.Schema
 import AikenVerif.Drivers.Budget
+import AikenVerif.Drivers.Prec
 /-!
 Native driver: line protocol.  Each request line is
   `<sub-command> <case-id> <fields…>`
@@ -30,6 +31,7 @@ def dispatch (st : DriverState) (sub : String) (args : List String) : DriverStat
   | "schema" | "schemaraw" | "validate" | "vraw" | "inhabits" | "encode" | "tag" | "apply" | "applyp" =>
     (st, Drivers.Schema.handle sub args)
   | "budget" => (st, Drivers.Budget.handle args)
+  | "prec" => (st, Drivers.Prec.handle args)
   | _ => (st, "unknown-subcommand")
 
 partial def loop (h : IO.FS.Stream) (out : IO.FS.Stream) (st : DriverState) : IO Unit := do
